@@ -48,7 +48,9 @@ def ids (txs : List Tx) : String := joinWith "," (txs.map (fun t => toString t.t
 
 def step (s : St) (w : List String) : St × String :=
   match w with
-  | ["variant", v] => ({ s with fixed := v == "fixed" }, "ok")
+  -- the model is PINNED to the repaired code (fix 828f704): the harness still reports what its probe of the
+  -- implementation saw, and anything but `fixed` is a correspondence difference
+  | ["variant", v] => (s, if v == "fixed" then "ok" else "model-is-pinned-to-fixed")
   | ["new", t] | ["enew", t] =>
     match t.toNat? with
     | some t => ({ s with g := newTxGuard t, univ := [] }, "ok")   -- a new node / case: earlier blocks are never referenced again
